@@ -53,3 +53,15 @@ CLAIMED['C16'] = ('model_checking',
     'Trusted: TLC, Config.tla, the concretisation of abstract values. The property is a pure function of the layering, so only '
     'the spec->code direction applies. "Documented default" = the default the option declares.',
     'TLA+ spec (rule + machine layer) checked by TLC; exhaustive spec->code replay of every layering on every real option')
+CLAIMED['C19'] = ('model_checking',
+    'TLC enumerates every boolean expression tree up to depth 2 over truth atoms and integer comparisons (8008 tests, minimal and '
+    'redundant parentheses, every placement of \\not) from IfThen.tla and checks the evaluator machine (infix->postfix with the '
+    'code\'s precedence table and prefix handling of \\not, postfix evaluation on a value stack) against the denotation '
+    '(EvalIsDenotation, NeverUnderflows, OneValue, termination); WhileDo.tla checks LoopCount for 0-6 iterations over five test '
+    'shapes.  Every enumerated test is concretised (\\equal, \\isodd, \\isundefined, \\boolean, \\lengthtest in mixed units and a '
+    'length register, literals, \\value, macro-produced numbers, upper/lower-case operators, optional blanks) and run through the '
+    'real parser comparing the processed branch and a then/else side-effect counter; seeded random trees of depth 3-5 are run on '
+    'the code and validated by TLC re-running the machine on exactly those tokens (IfThenTrace.tla).',
+    'DESIGN.md#c19',
+    'Trusted: TLC, the denotation/spelling in IfThen.tla, the concretisation table in harness/drivers/c19.py.',
+    TECH)
